@@ -14,14 +14,45 @@ Theorem C26_below_stop_antitone :
 Proof. exact below_stop_antitone. Qed.
 Print Assumptions C26_below_stop_antitone.
 
-Theorem C26_ranges_sound_complete_tree :
-  forall w nullable keys rs, (length rs <= w)%nat -> same_width w keys -> keys_sorted keys ->
+Theorem C26_ranges_sound_complete :
+  forall w nullable keys rs, (length rs <= w)%nat ->
+    Forall (fun t => length t = w) keys -> StronglySorted (fun a b => cmp_key a b <> Gt) keys ->
     match build_range w rs with
-    | Some r => key_range_lookup nullable r = None -> iter_range nullable keys r = filter (sat rs) keys
+    | Some r => iter_range nullable keys r = filter (sat rs) keys
     | None => filter (sat rs) keys = []
     end.
-Proof. exact ranges_sound_complete_tree. Qed.
-Print Assumptions C26_ranges_sound_complete_tree.
+Proof. exact ranges_sound_complete. Qed.
+Print Assumptions C26_ranges_sound_complete.
+
+Theorem C26_merge_join_spec :
+  forall fuel lo L R, side_sorted L -> side_sorted R -> (length L + length R < fuel)%nat ->
+    lo = false \/ (nulls L <= 1)%nat ->
+    Permutation (merge_join fuel lo L R) (nl_join lo L R).
+Proof. exact merge_join_spec. Qed.
+Print Assumptions C26_merge_join_spec.
+
+Theorem C26_merge_join_inner_spec :
+  forall L R, side_sorted L -> side_sorted R ->
+    Permutation (merge_join (S (length L + length R)) false L R) (nl_join false L R).
+Proof. exact merge_join_inner_spec. Qed.
+Print Assumptions C26_merge_join_inner_spec.
+
+Theorem C26_merge_join_left_spec_partial :
+  forall L R, side_sorted L -> side_sorted R -> (nulls L <= 1)%nat ->
+    Permutation (merge_join (S (length L + length R)) true L R) (nl_join true L R).
+Proof. exact merge_join_left_spec_partial. Qed.
+Print Assumptions C26_merge_join_left_spec_partial.
+
+Theorem C26_merge_join_left_refuted :
+  exists L R, side_sorted L /\ side_sorted R /\
+    ~ Permutation (merge_join (S (length L + length R)) true L R) (nl_join true L R).
+Proof. exact merge_join_left_refuted. Qed.
+Print Assumptions C26_merge_join_left_refuted.
+
+Theorem C26_lookup_join_spec :
+  forall lo L R, side_sorted R -> lookup_join lo L R = nl_join lo L R.
+Proof. exact lookup_join_spec. Qed.
+Print Assumptions C26_lookup_join_spec.
 
 Theorem C26_count_fast_path_spec : forall col rows, count_fast_path false col rows = count_spec col rows.
 Proof. exact count_fast_path_spec. Qed.
